@@ -1,55 +1,294 @@
 # C14 — concurrent requests are isolated and race-free
-import json, random, re
+import json, os, random, re, concurrent.futures
 
-FP = ["internal/closeonce:", "token/tokencache:Cache.GetKey", "server:Server.healthCheck", "signers:Signer.FlagsFromQuery", "signers:FlagValues.mergeSet",
-      "internal/signinit:.Init", "server/daemon:"]
+FP = ["internal/closeonce:", "token/tokencache:", "server:Server.healthCheck", "server:Server.Close", "server:Server.openTokens", "signers:Signer.FlagsFromQuery",
+      "signers:FlagValues.mergeSet", "internal/signinit:", "server/daemon:", "lib/audit:Info.AppendTo", "@xtime/rate:"]
+
+TOL_NS = 3_000_000     # clock granularity / goroutine wake-up tolerance for real-time oracles
+
+
+# ------------------------------------------------------------------------------------------------------------------
+# MODEL-FREE ORACLES (written from the property text; they see only what the real code did)
+
+def cache_oracle(case):
+    """history of the real tokencache.Cache: ops (start,end,name,pin,ok,key name,id,serial), token fetch log"""
+    bad = []
+    E = case.get("expiry_ns", case.get("expiry_us", 0) * 1000)
+    fetch = {f["serial"]: f for f in case.get("fetches", [])}
+    ops = case["ops"]
+    # which op performed which fetch (the token call lies inside the lookup)
+    fetcher = {}
+    for o in ops:
+        for s, f in fetch.items():
+            if f["start"] >= o["start"] and f["end"] <= o["end"] and f["name"] == o["name"] and f["pin"] == o["pin"]:
+                if o["ok"] and o["serial"] == s:
+                    fetcher[s] = o
+    for o in ops:
+        if not o["ok"]:
+            continue
+        tag = "lookup(name %d pin %d) by thread %d" % (o["name"], o["pin"], o["thread"])
+        if o["key_name"] != o["name"]:
+            bad.append(("foreign-key", "%s returned a key of name %d" % (tag, o["key_name"])))
+        if o["pin"] != 0 and o["key_id"] != o["pin"]:
+            bad.append(("pinned-id", "%s returned the key with id %d" % (tag, o["key_id"])))
+        f = fetch.get(o["serial"])
+        if f is None:
+            continue
+        mine = f["start"] >= o["start"] and f["end"] <= o["end"]
+        if not mine:
+            # served from the cache: the key must come from an un-pinned fetch of that name ...
+            if f["pin"] != 0 and o["pin"] == 0:
+                bad.append(("pinned-populated", "%s was served the key a pinned lookup fetched (serial %d)" % (tag, o["serial"])))
+            if E <= 0:
+                bad.append(("cached-without-expiry", "%s was served from the cache although expiry <= 0" % tag))
+            # ... not older than the expiry ...
+            fo = fetcher.get(o["serial"])
+            stored_by = fo["end"] if fo else f["end"]
+            if E > 0 and o["start"] > stored_by + E + TOL_NS:
+                bad.append(("expired-entry", "%s started %.1f ms after the entry was stored, expiry %.1f ms" % (tag, (o["start"] - stored_by) / 1e6, E / 1e6)))
+            # ... and not overwritten by a later un-pinned fetch that had completed before this lookup began
+            if o["pin"] == 0:
+                for s2, f2 in fetch.items():
+                    fo2 = fetcher.get(s2)
+                    if s2 > o["serial"] and f2["ok"] and f2["pin"] == 0 and f2["name"] == o["name"] and fo2 and fo2["end"] + TOL_NS < o["start"]:
+                        bad.append(("stale-read", "%s got serial %d although serial %d had been stored before it began" % (tag, o["serial"], s2)))
+                        break
+    return bad
+
+
+def window_violation(times, rate, burst, slack_ops, intervals=None):
+    """times: admission instants (ns, sorted) OR intervals [(start,end)] inside which each admission certainly lies.
+    Returns a description if some window holds more admissions than rate*window + burst (+ slack)."""
+    if intervals is None:
+        ts = sorted(times)
+        for i in range(len(ts)):
+            for j in range(i, len(ts)):
+                if (j - i + 1) > burst + rate * (ts[j] - ts[i]) / 1e9 + slack_ops + 1e-9:
+                    return "%d operations admitted within %.3f ms (rate %s/s, burst %s)" % (j - i + 1, (ts[j] - ts[i]) / 1e6, rate, burst)
+        return None
+    starts = sorted(set(s for s, _ in intervals))
+    ends = sorted(set(e for _, e in intervals))
+    for u in starts:
+        for v in ends:
+            if v < u:
+                continue
+            n = sum(1 for s, e in intervals if s >= u and e <= v)
+            if n > burst + rate * (v - u) / 1e9 + slack_ops + 1e-9:
+                return "%d operations certainly admitted within a window of %.3f ms (rate %s/s, burst %s)" % (n, (v - u) / 1e6, rate, burst)
+    return None
+
 
 def run(ctx, replay=None):
+    from vlib.common import run as sh, GOENV
     st = ctx.prepare(["C14_gen"], ["C14"], "C14.Run", drv_flags=["-race"])
     if not st["harness_ok"]:
         return ctx.finish("proof", ctx.proof_coverage([], FP), [])
-    rounds = 2 if ctx.tier == "quick" else 6
-    n_eval, races, results = 0, 0, []
-    for r in range(rounds):
-        seed = ctx.seed * 100 + r
-        cmd = [ctx.drv_path(), "-seed", str(seed), "-tier", ctx.tier, "-scratch", ctx.scratch + "/drv%d" % r, "c14"]
-        from vlib.common import run as sh, GOENV
-        import os
-        os.makedirs(ctx.scratch + "/drv%d" % r, exist_ok=True)
-        rc, out, err, _ = sh(cmd, timeout=900, env=dict(GOENV, GORACE="halt_on_error=0"))
+    env = dict(GOENV, GORACE="halt_on_error=0")
+    rounds = 2 if ctx.tier == "quick" else 5
+    races = 0
+
+    def drv(sub, seed, tag):
+        d = os.path.join(ctx.scratch, tag)
+        os.makedirs(d, exist_ok=True)
+        rc, out, err, dt = sh([ctx.drv_path(), "-seed", str(seed), "-tier", ctx.tier, "-scratch", d, sub], timeout=1500, env=env)
+        return sub, seed, rc, out, err, dt
+
+    jobs = [("c14cache", ctx.seed, "cache"), ("c14rate", ctx.seed, "rate"), ("c14shut", ctx.seed, "shut"), ("c14ts", ctx.seed, "ts"), ("c14audit", ctx.seed, "audit")]
+    results = {}
+    with concurrent.futures.ThreadPoolExecutor(max_workers=5) as ex:
+        futs = [ex.submit(drv, *j) for j in jobs]
+        daemon_runs = [drv("c14", ctx.seed * 100 + r, "drv%d" % r) for r in range(rounds)]   # the daemon rounds run one after another
+        for f in futs:
+            r = f.result()
+            results[r[0]] = r
+
+    def race_reports(sub, seed, err):
+        nonlocal races
         nr = err.count("WARNING: DATA RACE")
         races += nr
         if nr:
             first = err[err.index("WARNING: DATA RACE"):][:2500]
-            frames = re.findall(r"\n  ([\w./()*-]+)\(\)\n      (/repo/[^\s]+)", first)
+            frames = re.findall(r"\n  ([\w./()*-]+)\(\)\n      (/[^\s]+)", first)
             where = "; ".join("%s %s" % (f, l) for f, l in frames[:4])
-            ctx.violation("C14:spec:data-race:" + (frames[0][1].split("/repo/")[-1].split(":")[0] if frames else "unknown"),
-                          "race detector: %d report(s) under concurrent requests (seed %d): %s" % (nr, seed, where), {"seed": seed, "report": first})
-        line = [l for l in out.splitlines() if l.startswith("{")]
-        if rc not in (0, 66) or not line:
-            ctx.violation("C14:driver-crash", "driver failed rc=%s: %s" % (rc, err[-500:]), {"stderr": err[-3000:], "seed": seed}, False)
+            rel = [l for _, l in frames if "/verif/harness/" not in l and "/go/src/" not in l and "/pkg/mod/" not in l]
+            site = (rel[0] if rel else (frames[0][1] if frames else "unknown"))
+            site = re.sub(r"^.*?/((?:server|token|internal|lib|signers|cmdline|config)/)", r"\1", site).split(":")[0]
+            ctx.violation("C14:spec:data-race:" + site, "race detector: %d report(s) in %s (seed %d): %s" % (nr, sub, seed, where), {"seed": seed, "sub": sub, "report": first})
+
+    def lines_of(r):
+        sub, seed, rc, out, err, dt = r
+        race_reports(sub, seed, err)
+        ls = [json.loads(l) for l in out.splitlines() if l.startswith("{")]
+        if rc not in (0, 66) or not ls:
+            ctx.violation("C14:driver-crash:" + sub, "driver %s failed rc=%s: %s" % (sub, rc, err[-500:]), {"stderr": err[-3000:], "seed": seed}, False)
+            return []
+        return ls
+
+    n_eval, distinct = 0, 0
+    samples = []
+    witnesses = {}
+
+    # ---------------------------------------------------------------- real daemon
+    dres = []
+    for r in daemon_runs:
+        ls = lines_of(r)
+        if not ls:
             continue
-        o = json.loads(line[0])
-        results.append(o)
+        o = ls[0]
+        seed = r[1]
+        dres.append(o)
         n_eval += o["requests"]
-        rp = {"seed": seed, "result": o}
+        distinct += o["ok_2xx"]
+        rp = {"seed": seed, "result": {k: v for k, v in o.items() if k != "tokens"}}
         if o["wrong_sig"]:
             ctx.violation("C14:spec:mixed-up-response", "a returned signature does not verify over that request's body under that request's key: %s" % o["wrong_sig"][:3], rp)
         if o["cross_key"]:
             ctx.violation("C14:spec:wrong-key-used", "a signature verifies under the OTHER key: %s" % o["cross_key"][:3], rp)
         if o["bad_status"] or o["truncated"] or o["list_mismatch"]:
             ctx.violation("C14:spec:request-not-isolated", "unexpected status / truncated body / wrong listing under load: %s" % (o["bad_status"] or o["truncated"] or o["list_mismatch"])[:3], rp)
+        if o["option_leak"]:
+            ctx.violation("C14:spec:option-leak", "a request did not get the result of its OWN options (no-timestamp on a timestamping key, same key used with default options before / meanwhile): %s" % o["option_leak"][:3], rp)
+        h = o["tsa_hits_per_default"]
+        if h >= 1 and not (h * o["ts_default_done"] <= o["tsa_hits"] <= h * (o["ts_default_done"] + o["ts_default_unknown"])):
+            ctx.violation("C14:spec:option-leak", "timestamp authority saw %d requests; %d default-option requests (+%d cut off by shutdown) account for %d each — some no-timestamp request contacted the authority or a default one did not"
+                          % (o["tsa_hits"], o["ts_default_done"], o["ts_default_unknown"], h), rp)
         if o["audit_bad"] or o["audit_missing"] or o["audit_lines"] < 1:
-            ctx.violation("C14:spec:lost-audit-record", "audit file: %d bad lines, %d signatures without exactly one record" % (len(o["audit_bad"] or []), o["audit_missing"]), rp)
-        if o["failed_in_flight"] or o["completed_after_close"] < min(o["in_flight_at_close"], 1):
-            ctx.violation("C14:spec:shutdown-dropped-requests", "shutdown did not let in-flight requests finish: %s (in flight %d, completed %d)" %
-                          (o["failed_in_flight"], o["in_flight_at_close"], o["completed_after_close"]), rp)
+            ctx.violation("C14:spec:lost-audit-record", "audit file: %s bad lines, %d signatures without exactly one record" % ((o["audit_bad"] or [])[:3], o["audit_missing"]), rp)
+        if o["failed_in_flight"] or o["stalled_bad"] or o["stalled_ok"] != o["stalled"] or o["slow_ok"] != o["slow_in_flight"]:
+            ctx.violation("C14:spec:shutdown-dropped-requests", "shutdown did not let in-flight requests finish: %s %s (half-sent bodies %d/%d, slow token operations %d/%d completed)" %
+                          (o["failed_in_flight"], o["stalled_bad"], o["stalled_ok"], o["stalled"], o["slow_ok"], o["slow_in_flight"]), rp)
         if o["close_ms"] > 30000:
             ctx.violation("C14:spec:shutdown-hang", "daemon.Close took %d ms" % o["close_ms"], rp)
-    # model correspondence: random schedules of the model vs the isolation oracle, and log length
+        if o["close_returned"] and o["last_response"] > o["close_returned"] + TOL_NS:
+            ctx.violation("C14:spec:close-returned-early", "daemon.Close returned %.1f ms before the last in-flight response" % ((o["last_response"] - o["close_returned"]) / 1e6), rp)
+        late_pings = 0
+        for t in (o["tokens"] or []):
+            t["ops"] = t["ops"] or []
+            ca = t["closed_at"]
+            if t["closes"] < 1:
+                ctx.violation("C14:spec:token-not-closed", "token %s was never closed by daemon.Close" % t["name"], rp)
+            for op in t["ops"]:
+                if ca and op["end"] > ca and op["kind"] != "ping":
+                    ctx.violation("C14:spec:token-used-after-close", "token %s: %s operation %s %.2f ms after the token was closed" %
+                                  (t["name"], op["kind"], "started" if op["start"] > ca else "still running", (op["end"] - ca) / 1e6), dict(rp, token=t["name"], op=op))
+                    break
+                if ca and op["start"] > ca and op["kind"] == "ping":
+                    late_pings += 1
+        # every completed signing request on the rate-limited token contains at least one admission between its start and
+        # its end: requests lying entirely inside a window are bounded by what the limiter may admit in that window
+        msg = window_violation(None, o["ratelimit"], o["rateburst"], 1.0, intervals=[tuple(x) for x in (o.get("rate_reqs") or [])])
+        if msg:
+            ctx.violation("C14:spec:rate-limit-exceeded", "token file2 (ratelimit %s, burst %s), completed signing requests: %s" % (o["ratelimit"], o["rateburst"], msg), rp)
+        if late_pings:
+            ctx.violation("C14:spec:health-ping-after-token-close", "daemon.Close: %d health Ping(s) started after the token was closed" % late_pings, rp)
+        samples.append({k: o[k] for k in ("requests", "by_kind", "ok_2xx", "in_flight_at_close", "completed_after_close", "stalled_ok", "slow_ok", "close_ms",
+                                          "audit_lines", "tsa_hits", "ts_default_done")})
+
+    # ---------------------------------------------------------------- token cache (real tokencache.Cache)
+    cache_cases = lines_of(results["c14cache"])
+    seq_cases = [c for c in cache_cases if c["kind"] == "seq"]
+    conc_cases = [c for c in cache_cases if c["kind"] == "conc"]
+    n_cache_ops = 0
+    for cs in cache_cases:
+        cs["ops"] = cs.get("ops") or []
+        if "fetches" in cs:
+            cs["fetches"] = cs["fetches"] or []
+        n_cache_ops += len(cs["ops"])
+    for cs in conc_cases:
+        for key, msg in cache_oracle(cs)[:3]:
+            ctx.violation("C14:spec:cache:" + key, "token cache under %s lookups: %s" % ("a forced interleaving of pinned/un-pinned" if cs.get("forced") else "concurrent", msg),
+                          {"case": {k: cs[k] for k in ("kind", "expiry_ns", "ops", "fetches", "forced")}})
+    for cs in seq_cases:             # sequential: owner / pin on the observations themselves
+        for o in cs["ops"]:
+            if o["ok"] and o["key_name"] != o["name"]:
+                ctx.violation("C14:spec:cache:foreign-key", "lookup of %d returned a key of %d" % (o["name"], o["key_name"]), {"case": cs})
+            if o["ok"] and o["pin"] and o["key_id"] != o["pin"]:
+                ctx.violation("C14:spec:cache:pinned-id", "lookup pinned to id %d returned id %d" % (o["pin"], o["key_id"]), {"case": cs})
+            if o["ok"] != o["fetch_ok"] and o["fetched"]:
+                ctx.violation("C14:spec:cache:error-handling", "token outcome %s but lookup outcome %s" % (o["fetch_ok"], o["ok"]), {"case": cs})
+            if cs["expiry_us"] <= 0 and not o["fetched"]:
+                ctx.violation("C14:spec:cache:cached-without-expiry", "lookup served from the cache although expiry <= 0", {"case": cs})
+    n_eval += n_cache_ops
+    distinct += len(cache_cases)
+
+    # ---------------------------------------------------------------- rate limiter
+    rate_cases = lines_of(results["c14rate"])
+    lib_cases = [c for c in rate_cases if c["kind"] == "lib"]
+    for cs in rate_cases:
+        if cs["kind"] == "lib":
+            cs["calls"] = cs.get("calls") or []
+            n_eval += len(cs["calls"])
+            adm = [c for c in cs["calls"] if c["ok"]]
+            # clock readings that reached the limiter out of order are credited twice (known behaviour of the library,
+            # model theorem rl_window_bound): the oracle grants exactly that slack and nothing else
+            inv = sum(max(0, adm[i - 1]["t"] - adm[i]["t"]) for i in range(1, len(adm)))
+            msg = window_violation(sorted(c["act"] for c in adm), cs["rate"], cs["burst"], cs["rate"] * inv / 1e9 + 1e-6)
+            if cs.get("note") == "witness:inversion":
+                strict = window_violation(sorted(c["act"] for c in adm), cs["rate"], cs["burst"], 1e-6)
+                witnesses["rate_clock_inversion_overcredit_on_real_library"] = bool(strict)
+            if msg:
+                ctx.violation("C14:spec:rate-limit-exceeded:library", "x/time/rate with explicit times: %s" % msg, {"case": cs})
+            for c in adm:
+                if c["act"] < c["t"]:
+                    ctx.violation("C14:spec:rate-limit-negative-wait", "reservation at %d may act at %d" % (c["t"], c["act"]), {"case": cs})
+        elif cs["kind"] == "wrap":
+            cs["underlying"] = cs.get("underlying") or []
+            cs["ops"] = cs.get("ops") or []
+            n_eval += len(cs["ops"])
+            okops = [o for o in cs["ops"] if o["ok"]]
+            if len(okops) != len(cs["ops"]):
+                ctx.violation("C14:spec:rate-limit-starved", "rate %s burst %s: %d of %d operations failed although no deadline was set" % (cs["rate"], cs["burst"], len(cs["ops"]) - len(okops), len(cs["ops"])), {"case": cs})
+            if len(cs["underlying"]) != len(okops):
+                ctx.violation("C14:spec:rate-limit-bypassed", "%d token operations for %d admitted wrapper calls" % (len(cs["underlying"]), len(okops)), {"case": cs})
+            b = max(cs["burst"], 1)
+            msg = window_violation(None, cs["rate"], b, 1.0, intervals=[(o["start"], o["end"]) for o in okops])
+            if msg:
+                ctx.violation("C14:spec:rate-limit-exceeded", "tokencache.NewLimiter(rate %s, burst %s): %s" % (cs["rate"], cs["burst"], msg), {"case": cs})
+            need = (len(okops) - b) / cs["rate"] * 1e9
+            if cs["total_ns"] < need * 0.9 - TOL_NS:
+                ctx.violation("C14:spec:rate-limit-exceeded", "%d operations finished in %.1f ms; rate %s/s and burst %s need at least %.1f ms" % (len(okops), cs["total_ns"] / 1e6, cs["rate"], b, need / 1e6), {"case": cs})
+            if cs["total_ns"] > need + 2e9:
+                ctx.violation("C14:spec:rate-limit-starved", "%d operations took %.1f ms, expected about %.1f ms" % (len(okops), cs["total_ns"] / 1e6, need / 1e6), {"case": cs})
+        elif cs["kind"] == "deadline":
+            cs["underlying"] = cs.get("underlying") or []
+            kinds = {o["kind"]: o for o in cs["ops"]}
+            if not kinds["getkey"]["ok"] or any(kinds[k]["ok"] for k in kinds if k != "getkey"):
+                ctx.violation("C14:spec:rate-limit-deadline", "a call whose deadline the limiter cannot meet (or whose context is cancelled) must fail: %s" % cs["ops"], {"case": cs})
+            if len(cs["underlying"]) != 1:
+                ctx.violation("C14:spec:rate-limit-bypassed", "the token was used %d times although only one call was admitted" % len(cs["underlying"]), {"case": cs})
+            if any(o["end"] - o["start"] > 1e9 for o in cs["ops"]):
+                ctx.violation("C14:spec:rate-limit-starved", "a call with a 20 ms deadline blocked for more than a second", {"case": cs})
+        elif cs["kind"] == "negrate":
+            blocked = "still blocked" in cs.get("note", "")
+            witnesses["nonpositive_rate_blocks_forever_on_real_code"] = blocked
+            # domain restriction (rate > 0), not a violation: the server only builds a limiter for a positive rate
+            # (srcgen: rl_enabled, theorem server_limiter_wf); the daemon rounds run a token configured with ratelimit -1
+    distinct += len(rate_cases)
+
+    # ---------------------------------------------------------------- shutdown witness, timestamper
+    for cs in lines_of(results["c14shut"]):
+        n_eval += 1
+        witnesses["health_ping_after_token_close_on_real_code"] = cs["pings_started_after_close"]
+        if cs["loop_exit_ms"] < 0:
+            ctx.violation("C14:spec:shutdown-hang", "server.Close did not return within 3 s while a health check was under way", {"case": cs})
+        if cs["pings_started_after_close"] > 0 or cs["pings_ended_after_close"] > 0:
+            ctx.violation("C14:spec:health-ping-after-token-close", "server.Close closed the tokens while a health check was under way: %d Ping call(s) started and %d were still running after the token's Close had returned (theorem no_health_ping_after_close)" % (cs["pings_started_after_close"], cs["pings_ended_after_close"]), {"case": cs})
+    for cs in lines_of(results["c14audit"]):
+        n_eval += cs["appends"]
+        distinct += 1
+        if cs["bad"] or cs["missing"] or cs["duplicates"] or cs["failed"] or cs["no_final_newline"] or cs["lines"] != cs["appends"]:
+            ctx.violation("C14:spec:lost-audit-record", "%d concurrent AppendTo calls on one file: %d lines, %d records missing, %d duplicated, unparsable lines %s" %
+                          (cs["appends"], cs["lines"], cs["missing"], cs["duplicates"], (cs["bad"] or [])[:2]), {"case": cs})
+    for cs in lines_of(results["c14ts"]):
+        n_eval += cs["callers"]
+        if cs["distinct_instances"] != 1 or cs["errors"] or cs["nil_without_error"]:
+            ctx.violation("C14:spec:timestamper-not-shared-once", "concurrent GetTimestamper: %d distinct instances, %d errors, %d nil-without-error" % (cs["distinct_instances"], cs["errors"], cs["nil_without_error"]), {"case": cs})
+
+    # ---------------------------------------------------------------- model correspondence
     n_model = 0
     if st["model_ok"]:
         rnd = random.Random(ctx.seed)
+        # (0) request interleaving model vs the isolation oracle (as before)
         vals, exp = [], []
         for _ in range(200):
             n = rnd.randint(1, 6)
@@ -63,12 +302,110 @@ def run(ctx, replay=None):
             if m[0] != e:
                 ctx.violation("C14:correspondence-model", "interleaving model disagrees with the isolation oracle on %s" % v, {"case": v, "broken": "C14.Run"}, False)
                 break
+        # (a) timed cache: the real cache's sequential histories, with the clock values it saw
+        vals, keep = [], []
+        for cs in seq_cases:
+            if cs["unstable"]:
+                continue
+            evs, now = [], 0
+            for k, (o, t) in enumerate(zip(cs["ops"], cs["times_us"])):
+                evs.append([1, max(0, t - now)])
+                now = max(now, t)
+                evs += [[0, k, 1 if o["fetch_ok"] else 0]] * 6
+            vals.append([1, cs["expiry_us"], [[o["name"], o["pin"]] for o in cs["ops"]], evs])
+            keep.append(cs)
+        mism = 0
+        for cs, m in zip(keep, ctx.run_model(vals)):
+            n_model += 1
+            got = [[2, 1 if o["ok"] else 0, o["key_name"] if o["ok"] else 0, o["key_id"] if o["ok"] else 0, 1 if o["fetched"] else 0] for o in cs["ops"]]
+            if m[0] != got or m[3] != 1:
+                mism += 1
+                if mism == 1:
+                    k = next((i for i, (a, b) in enumerate(zip(m[0], got)) if a != b), -1)
+                    ctx.violation("C14:correspondence-cache", "timed cache model and the real tokencache.Cache disagree on a sequential history (lookup #%d: model %s, real %s)" %
+                                  (k, m[0][k] if k >= 0 else m[3], got[k] if k >= 0 else None), {"case": cs, "model": m, "broken": "C14.ModelCache"}, False)
+        # (b) limiter: reservation by reservation against the real library, and the PROVED window check on the real act times
+        vals, keep = [], []
+        INF = 9223372036854775807
+        for cs in lib_cases:
+            vals.append([2, cs["rate"], 1000000000, cs["burst"], [[c["t"], INF if c["maxwait"] < 0 else c["maxwait"]] for c in cs["calls"]]])
+            keep.append(cs)
+        wvals = []
+        for cs in lib_cases:
+            adm = [c for c in cs["calls"] if c["ok"]]
+            inv = sum(max(0, adm[i - 1]["t"] - adm[i]["t"]) for i in range(1, len(adm)))
+            wvals.append([3, cs["rate"], 1000000000, cs["burst"], cs["rate"] * inv + cs["rate"] + 1000, sorted(c["act"] for c in adm)])
+        outs = ctx.run_model(vals + wvals)
+        for cs, m in zip(keep, outs[:len(vals)]):
+            n_model += 1
+            real = [[c["t"], c["act"], c["tokens"]] for c in cs["calls"] if c["ok"]]
+            ok = len(m) == len(real) and all(a[0] == b[0] and abs(a[1] - b[1]) <= 2 and abs(a[2] - b[2]) <= 2000 for a, b in zip(m, real))
+            if not ok:
+                ctx.violation("C14:correspondence-ratelimit", "limiter model and golang.org/x/time/rate disagree (rate %s burst %s): model %s real %s" % (cs["rate"], cs["burst"], m[:4], real[:4]),
+                              {"case": cs, "model": m, "broken": "C14.ModelRate"}, False)
+                break
+        for cs, w in zip(lib_cases, outs[len(vals):]):
+            n_model += 1
+            if w != 1:
+                ctx.violation("C14:spec:rate-limit-exceeded:library", "the proved window check rejects the act times of the real limiter (rate %s burst %s)" % (cs["rate"], cs["burst"]), {"case": cs})
+                break
+        # (c,d,e) shutdown / audit / timestamper machines on random schedules: the specification predicates evaluated by the model
+        vals = []
+        for _ in range(150):
+            n = rnd.randint(1, 4)
+            evs = []
+            for _ in range(rnd.randint(5, 60)):
+                x = rnd.random()
+                if x < 0.6:
+                    evs.append([0, rnd.randrange(n), 1 if rnd.random() < 0.9 else 0])
+                elif x < 0.68:
+                    evs.append([1])
+                elif x < 0.83:
+                    evs.append([2])
+                elif x < 0.88:
+                    evs.append([3])
+                elif x < 0.93:
+                    evs.append([4, rnd.choice([1, 10**9, 3 * 10**11])])
+                else:
+                    evs.append([5, rnd.randint(0, 1)])
+            vals.append([4, 2, n, evs])
+        for v, m in zip(vals, ctx.run_model(vals)):
+            n_model += 1
+            pcs, file_hex, clean, noping, returned, forced, closed, lines, rest = m
+            nl_done = sum(1 for p in pcs if p == 2 or p >= 16)
+            if (not forced and not clean) or not noping or len(lines) != nl_done or str(rest) != "" or (returned and not closed):
+                ctx.violation("C14:correspondence-model", "shutdown/audit machine contradicts its specification on %s: %s" % (v, m), {"case": v, "model": m, "broken": "C14.ModelShut"}, False)
+                break
+        vals = []
+        for _ in range(60):
+            n = rnd.randint(1, 5)
+            vals.append([5, n, [[rnd.randrange(n), 1 if rnd.random() < 0.7 else 0] for _ in range(rnd.randint(0, 8 * n))]])
+        for v, m in zip(vals, ctx.run_model(vals)):
+            n_model += 1
+            insts = set(t[1] for t in m[0] if t[0] == 2 and t[1] != 0)
+            if len(insts) > 1 or m[1] > 1:
+                ctx.violation("C14:correspondence-model", "timestamper machine built more than one instance on %s: %s" % (v, m), {"case": v, "model": m, "broken": "C14.ModelInit"}, False)
+                break
     ctx.proof_verdict()
-    cov = ctx.proof_coverage(["srcgen: call tables of closeonce.Close, Cache.GetKey, healthCheck, signinit.Init, daemon.Close; per-request object construction in FlagsFromQuery",
-                              "harness drv-c14 built with -race: the REAL daemon (TLS listener, http.Server, graceful Close) with real file tokens, 1 s key-cache expiry, token rate limit, health loop, audit file; 16x25 (quick) / 48x120 (thorough) mixed requests per round; each PGP signature verified over that request's body under that request's key and must fail under the other key; shutdown while requests are in flight",
-                              "data races, the Go memory model, http.Server.Shutdown and scheduling live in the runtime: observed by the race detector and the harness, not modelled; the Coq model covers the interleaving of atomic steps only"], FP)
-    cov.update({"evaluations": n_eval + n_model, "distinct_nontrivial": sum(o["ok_2xx"] for o in results),
-                "rule": "rounds of concurrent mixed requests (sign pgp/ps with 3 key names incl. alias over 2 tokens, 3 digests, denied key, list, key info, health) against the real daemon under the race detector, shutdown at a seed-dependent moment; distinct = completed 2xx requests, each individually checked; plus 200 random schedules of the Coq model against the isolation oracle",
-                "samples": [{k: o[k] for k in ("requests", "by_kind", "ok_2xx", "in_flight_at_close", "completed_after_close", "close_ms", "audit_lines")} for o in results[:2]],
-                "race_reports": races, "model_schedules": n_model})
-    return ctx.finish("proof", cov, ["race detector is dynamic: only races exercised by these runs are seen", "runtime (scheduler, memory model, net/http) not modelled"])
+    cov = ctx.proof_coverage([
+        "srcgen: call tables, statement skeletons (lock first / deferred unlock / one Lock / one Unlock, fetch-errcheck-store order), struct fields, comparison operators and stored expiry of Cache.GetKey; "
+        "burst floor, Wait-before-operation tables and shared limiter of ratelimit.go; advance/reserveN/wait conditions of golang.org/x/time/rate at the pinned version; closure program and timeout of daemon.Close, "
+        "server.Close table, serveSign table; AppendTo (one Write, newline appended, O_APPEND); GetTimestamper skeleton; every package-level variable and every write to one outside init() in the anchored packages and signers/*",
+        "harness drv-c14 built with -race: REAL daemon with instrumented file tokens behind the production wiring (metrics -> limiter -> cache), key-cache expiry 1 s with a pause longer than it between bursts, "
+        "token rate limit, timestamping key + counting timestamp authority (isolated / sequence / forced overlap on the same key), half-sent bodies and slow token operations in flight when daemon.Close is called; "
+        "every response verified against its own request; REAL tokencache.Cache under scripted and concurrent pinned/un-pinned lookups with a rotating, failing, slow token; REAL x/time/rate with explicit times; "
+        "REAL tokencache.NewLimiter in real time; REAL server.Close with a health check under way; REAL signinit.GetTimestamper from 24 goroutines",
+        "data races, the Go memory model, http.Server.Shutdown, goroutine scheduling and float64 rounding inside x/time/rate live in the runtime / library: observed by the race detector and the harness, not modelled; "
+        "the Coq models cover the interleaving of atomic steps (mutex sections, clock reads, single O_APPEND writes) only",
+        "refuted in the model, with witnesses (documented, no finding keys): strict window bound under clock-reading inversion (rl_strict_bound_refuted; replayed on the real x/time/rate with explicit times), "
+        "progress of tokencache.NewLimiter called directly with rate <= 0 (rl_progress_refuted_nonpositive_rate; replayed; the server only builds a limiter for rate > 0), "
+        "tokens closed under a handler that outlives the 5 min grace period (shutdown_grace_period_refuted; not replayed: needs > 5 min)"], FP)
+    cov.update({"evaluations": n_eval + n_model, "distinct_nontrivial": distinct,
+                "rule": "daemon rounds: baseline (isolated / sequence / overlap on the timestamping key) + burst + pause > cache expiry + burst with shutdown while half-sent bodies and slow token operations are in flight; "
+                        "distinct = completed 2xx requests (each verified against its own request) + cache / limiter cases; evaluations add every lookup, reservation and model case",
+                "samples": samples[:2] + [{"cache_seq_cases": len(seq_cases), "cache_conc_cases": len(conc_cases), "cache_lookups": n_cache_ops,
+                                           "limiter_cases": len(rate_cases), "model_cases": n_model}],
+                "race_reports": races, "model_cases": n_model, "witness_replays": witnesses})
+    return ctx.finish("proof", cov, ["race detector is dynamic: only races exercised by these runs are seen", "runtime (scheduler, memory model, net/http) not modelled",
+                                     "x/time/rate is modelled in exact integer arithmetic (token-units per ns); float64 rounding is covered by the differential run only",
+                                     "O_APPEND single-write atomicity is assumed of the OS (the model appends a whole line in one step)"])
